@@ -435,4 +435,127 @@ let spec_case (line : string) : string =
        | Bad s -> s
        | Not_found -> "ok")     (* a malformed history (undefined slot or context): nothing to judge *)
 
-let engines = [ "attr", run_case; "attr-spec", spec_case ]
+(* ---- engine "attr-chain": the dictionaries behind clones as a list (Attr/AttrChain.v) ----
+   line:  CHAIN <op> ... || I:<path>,.. K<ctx>:<d>><d>.. D<k>:<path>,.. [M:<path>]
+   ops:   X:<ctx> clone with KDUMP_CLONE_XLAT, N:<ctx> clone sharing the dictionary,
+          V:<ctx>:<j>:<n> set linux.vmcoreinfo.raw to the lines K<j>..K<j+n-1> through <ctx>,
+          S:<ctx>:<n> set file.set.number through <ctx>, F:<ctx> free the context.
+   The driver reports white-box: the paths in dictionary 0's hash table of a new context (I),
+   and at the end the fallback chain of every live context (K), the paths in the hash table of
+   every reachable dictionary (D) and every attribute whose parent is in another table (M). *)
+let cpath_of_str (s : string) : coq_N list list =
+  if s = "-" then [] else Stdlib.List.map bytes_of_hex (split_on '.' s)
+let cpath_str (p : coq_N list list) : string =
+  if p = [] then "-" else String.concat "." (Stdlib.List.map hex_of_bytes p)
+let bytes_of_string (s : string) : coq_N list =
+  Stdlib.List.init (String.length s) (fun i -> n_of_int (Char.code s.[i]))
+
+let chain_history (ops : string list) (outs : string list) : string =
+  let bad fmt = Printf.ksprintf (fun s -> raise (Bad s)) fmt in
+  let tok pre = Stdlib.List.filter_map (fun t ->
+    let n = String.length pre in
+    if String.length t >= n && String.sub t 0 n = pre then Some (String.sub t n (String.length t - n)) else None) outs in
+  let init = match tok "I:" with
+    | [l] -> Stdlib.List.map cpath_of_str (split_on ',' l)
+    | _ -> bad "no initial table in the driver's output" in
+  let s = ref { AttrChain.dicts = [ { AttrChain.d_alive = true; d_fallback = None; d_refs = nat_of_int 1 } ];
+                attrs = Stdlib.List.map (fun p -> { AttrChain.a_path = p; a_table = Datatypes.O; a_tree = Datatypes.O }) init } in
+  let ctxs = ref [ Some 0 ] in
+  let nfiles = ref 0 in
+  let b = bytes_of_string in
+  let xl = b "addrxlat" in
+  let singles = [ []; [xl]; [xl; b "ostype"] ] and roots = [ [xl; b "default"]; [xl; b "force"] ] in
+  let lines = [ b "linux"; b "vmcoreinfo"; b "lines" ] in
+  let ctx i = try Stdlib.List.nth !ctxs i with _ -> None in
+  let wf op = if not (AttrChain.invb !s) then bad "%s: the model state is not well-formed (invb)" op in
+  wf "start";
+  Stdlib.List.iter (fun op ->
+    (match split_on ':' op with
+     | ["X"; i] ->
+         (match ctx (int_of_string i) with
+          | Some d ->
+              let n = Stdlib.List.length !s.AttrChain.dicts in
+              let priv = AttrChain.clone_priv !s (nat_of_int d) singles roots in
+              s := AttrChain.clone_xlat_ref !s (nat_of_int d) priv;
+              ctxs := !ctxs @ [ Some n ]
+          | None -> ctxs := !ctxs @ [ None ])
+     | ["N"; i] ->
+         (match ctx (int_of_string i) with
+          | Some d -> s := AttrChain.clone_shared !s (nat_of_int d); ctxs := !ctxs @ [ Some d ]
+          | None -> ctxs := !ctxs @ [ None ])
+     | ["V"; i; j; n] ->
+         (match ctx (int_of_string i) with
+          | Some d ->
+              let d = nat_of_int d in
+              s := AttrChain.remove_below !s d lines true;
+              for k = int_of_string j to int_of_string j + int_of_string n - 1 do
+                s := AttrChain.create_path !s d [] (lines @ [ b (Printf.sprintf "K%d" k) ])
+              done
+          | None -> ())
+     | ["S"; i; n] ->
+         (match ctx (int_of_string i) with
+          | Some d ->
+              let d = nat_of_int d and n = int_of_string n in
+              let set k = [ b "file"; b "set"; b (string_of_int k) ] in
+              for k = !nfiles to n - 1 do
+                s := AttrChain.create_path !s d [] (set k);
+                s := AttrChain.create_path !s d [] (set k @ [ b "fd" ]);
+                s := AttrChain.create_path !s d [] (set k @ [ b "name" ])
+              done;
+              for k = n to !nfiles - 1 do s := AttrChain.remove_below !s d (set k) false done;
+              nfiles := n
+          | None -> ())
+     | ["F"; i] ->
+         let i = int_of_string i in
+         (match ctx i with
+          | Some d ->
+              s := AttrChain.release (nat_of_int (Stdlib.List.length !s.AttrChain.dicts + 1)) !s (nat_of_int d);
+              ctxs := Stdlib.List.mapi (fun j c -> if j = i then None else c) !ctxs
+          | None -> ())
+     | _ -> bad "bad op %s" op);
+    wf op) ops;
+  (* the chains of the live contexts *)
+  Stdlib.List.iteri (fun i c ->
+    let got = tok (Printf.sprintf "K%d:" i) in
+    match c, got with
+    | None, [] -> ()
+    | None, _ -> bad "context %d is reported alive; the model has freed it" i
+    | Some _, [] -> bad "context %d is not reported; the model has it alive" i
+    | Some d, g :: _ ->
+        let want = String.concat ">" (Stdlib.List.map (fun k -> string_of_int (int_of_nat k))
+                                        (AttrChain.chain !s (nat_of_int d))) in
+        if want <> g then bad "fallback chain of context %d: the library has %s, the model %s" i g want) !ctxs;
+  (* the live dictionaries and their hash tables *)
+  let alive = Stdlib.List.map int_of_nat (AttrChain.alive_dicts !s) in
+  let reported = Stdlib.List.filter_map (fun t ->
+    if String.length t > 1 && t.[0] = 'D' then
+      (match split_on ':' t with [k; l] -> Some (int_of_string (String.sub k 1 (String.length k - 1)), l) | _ -> None)
+    else None) outs in
+  let rk = Stdlib.List.sort compare (Stdlib.List.map fst reported) in
+  if rk <> alive then
+    bad "live dictionaries: the library has [%s], the model (reference counts) [%s]"
+      (String.concat ";" (Stdlib.List.map string_of_int rk)) (String.concat ";" (Stdlib.List.map string_of_int alive));
+  Stdlib.List.iter (fun (k, l) ->
+    let got = Stdlib.List.sort compare (if l = "" then [] else split_on ',' l) in
+    let want = Stdlib.List.sort compare (Stdlib.List.map cpath_str (AttrChain.table !s (nat_of_int k))) in
+    if got <> want then begin
+      let miss = Stdlib.List.filter (fun x -> not (Stdlib.List.mem x got)) want
+      and extra = Stdlib.List.filter (fun x -> not (Stdlib.List.mem x want)) got in
+      let sh = function x :: _ -> x | [] -> "-" in
+      bad "hash table of dictionary %d: %d entries in the library, %d in the model; only in the model: %s, only in the library: %s"
+        k (Stdlib.List.length got) (Stdlib.List.length want) (sh miss) (sh extra)
+    end) reported;
+  (match tok "M:" with
+   | [] -> ()
+   | m :: _ -> bad "attribute %s is hashed in another dictionary than its parent directory (dangles when that one is freed)" m);
+  if AttrChain.misplaced !s <> [] then bad "the model has a misplaced attribute";
+  "ok"
+
+let chain_case (line : string) : string =
+  let i = try find_sub line " || " with Not_found -> failwith "bad chain line" in
+  let case = String.sub line 0 i
+  and out = String.sub line (i + 4) (String.length line - i - 4) in
+  let ops = match words case with "CHAIN" :: r -> r | r -> r in
+  (try chain_history ops (words out) with Bad s -> s)
+
+let engines = [ "attr", run_case; "attr-spec", spec_case; "attr-chain", chain_case ]
